@@ -1392,6 +1392,13 @@ fn run_history(id: &str, mode: &str, body: &str, pad: usize, out: &mut impl Writ
             if w_.escaped {
                 line.push_str(" esc=1");
             }
+            if !w_.dtor_log.is_empty() {
+                // destructors started before the fault: the member order the model must follow
+                line.push_str(" order=");
+                for (i, d) in w_.dtor_log.iter().enumerate() {
+                    let _ = write!(line, "{}{}", if i > 0 { "," } else { "" }, d);
+                }
+            }
             let _ = writeln!(out, "{}", line);
             break;
         }
